@@ -6,7 +6,9 @@ model = the Lean dispatch model (LinOp/C02/Model.lean) run by the driver on the 
         predicted CLASS TREE of the result + exact rational values.
 """
 import json
+import os
 import re
+import time
 import zlib
 
 import torch
@@ -180,6 +182,8 @@ def enc(op):
         k = op._constant
         k = k.expand(*op.shape[:-2]) if k.dim() else k
         return f"CM {fmt_rat(float(b0(k, nb) if k.dim() else k))} {sub(op.base_linear_op)}"
+    if n.startswith("KroneckerProduct") or n == "SumKroneckerLinearOperator":
+        raise NotEncodable(n)
     # any other class: opaque, value from its own dense form
     return f"O {opq_id(n)} {r} {c} {mat(b0(op.to_dense(), nb))}"
 
@@ -225,6 +229,18 @@ class Runner:
     def __init__(self, chk):
         self.chk = chk
         self.lines, self.meta = [], []   # model lines and (cell, impl_tree, impl_dense0, payload)
+        self.dump = [] if os.environ.get("C02_DUMP") else None
+        if self.dump is not None:   # development aid: log every failure (the Check object caps its lists)
+            v0, c0 = chk.violation, chk.corr_break
+
+            def v(cell, what, payload=None):
+                self.dump.append(("V" if chk.known(cell) is None else "K", cell, what))
+                return v0(cell, what, payload)
+
+            def c(cell, what, payload=None):
+                self.dump.append(("C" if chk.known(cell) is None else "K", cell, what))
+                return c0(cell, what, payload)
+            chk.violation, chk.corr_break = v, c
 
     def record(self, cell, desc, impl_fn, spec_fn, payload, exact=True, model=None, psd_ok=True):
         """Run one case.  impl_fn() -> library result; spec_fn() -> dense tensor (None / raises: undefined)."""
@@ -276,6 +292,9 @@ class Runner:
                 chk.corr_break(f"{cell}/tree", f"model says `{out[:80]}`, implementation returned {itree}; line `{line[:200]}`", payload)
                 continue
             mtree = collapse_mul(parts[1])
+            if isinstance(payload, dict) and payload.get("kind") in ("lun", "run", "one3", "bc"):
+                # broadcasting may wrap operands without `_expand_batch` in BatchRepeat: compare modulo opaque ids
+                mtree, itree = re.sub(r"Opaque\d+", "Opaque", mtree), re.sub(r"Opaque\d+", "Opaque", itree)
             if mtree != itree:
                 chk.corr_break(f"{cell}/tree", f"class tree: model {mtree} vs implementation {itree}", payload)
                 continue
@@ -783,14 +802,17 @@ def run(chk):
     chk.prove("LinOp.Properties.C02", ["LinOp/C02", "LinOp/Generated/C02Table.lean", "LinOp/Core/Parse.lean", "LinOp/Core/Basic.lean",
                                        "LinOp/Core/Bridge.lean"])
     R = Runner(chk)
-    run_pairs(R, chk, thorough)
-    R.flush()
-    run_scalars(R, chk, thorough)
-    R.flush()
-    run_unary(R, chk, thorough)
-    R.flush()
-    run_programs(R, chk, thorough)
-    R.flush()
+    parts = os.environ.get("C02_PARTS", "pairs,scalars,unary,programs").split(",")
+    for name, fn in (("pairs", run_pairs), ("scalars", run_scalars), ("unary", run_unary), ("programs", run_programs)):
+        t = time.time()
+        if name in parts:
+            fn(R, chk, thorough)
+            R.flush()
+        chk.extra[f"part_{name}_s"] = round(time.time() - t, 1)
+    if R.dump is not None:
+        with open(os.environ["C02_DUMP"], "w") as fh:
+            for k, cell, what in R.dump:
+                fh.write(f"{k}\t{cell}\t{what}\n")
 
 
 def replay(chk, payload):
